@@ -5,7 +5,13 @@ package analyzer
 //
 
 // As soon as the algorithm detects that the `originalStart` node is reachable from other modules, it returns an error
-func (self Analyzer) importGraphIsCyclicInner(originalStart string, start string, path []string) (outputPath []string, isCyclic bool) {
+func (self Analyzer) importGraphIsCyclicInner(originalStart string, start string, path []string, visited map[string]struct{}) (outputPath []string, isCyclic bool) {
+	// a module which was already searched cannot lead to the start module (also terminates on cycles not containing the start)
+	if _, alreadyVisited := visited[start]; alreadyVisited {
+		return path, false
+	}
+	visited[start] = struct{}{}
+
 	// modules reachable from `start`
 	module, found := self.modules[start]
 	if !found {
@@ -19,7 +25,7 @@ func (self Analyzer) importGraphIsCyclicInner(originalStart string, start string
 		if node == originalStart {
 			return append(path, node), true
 		}
-		if path, cyclic := self.importGraphIsCyclicInner(originalStart, node, append(path, node)); cyclic {
+		if path, cyclic := self.importGraphIsCyclicInner(originalStart, node, append(path, node), visited); cyclic {
 			return path, cyclic
 		}
 	}
@@ -28,5 +34,5 @@ func (self Analyzer) importGraphIsCyclicInner(originalStart string, start string
 }
 
 func (self Analyzer) importGraphIsCyclic(start string) (outputPath []string, isCyclic bool) {
-	return self.importGraphIsCyclicInner(start, start, []string{start})
+	return self.importGraphIsCyclicInner(start, start, []string{start}, make(map[string]struct{}))
 }
